@@ -398,6 +398,16 @@ def install_libc2(I):
                 return 1 if I.decide(I.icmp('ugt', 8, x, y), 'memcmp') else mask(32)
         return 0
     I.models['memcmp'] = memcmp; I.models['bcmp'] = memcmp
+    def str_compare_cstr(I_, this, cs):
+        # std::string::compare(const char*): traits compare over the common length, then the length difference
+        from irparse import IntTy as _IT, PtrTy as _PT
+        p = I.load(this, _PT(i8)); ln = I.concretize(I.load(this + 8, _IT(64)), 'len')
+        k = 0
+        while I.decide(I.icmp('ne', 8, I.load(cs + k, i8), 0), 'strlen'): k += 1
+        r = memcmp(I_, p, cs, min(ln, k))
+        if r != 0: return r
+        return 0 if ln == k else (1 if ln > k else mask(32))
+    I.models['_ZNKSt7__cxx1112basic_stringIcSt11char_traitsIcESaIcEE7compareEPKc'] = str_compare_cstr
 
 
 def install_mutate(I):
